@@ -27,6 +27,18 @@ def fix_coverage(res):
   return res
 
 
+def report(ctx, sig, rep, per_signature=3):
+  """ctx.report, but at most a few cases per distinct signature: the engine
+  keeps replay files only for the first 50 violations, and one defect easily
+  produces thousands, which would hide the other signatures."""
+  seen = ctx.notes.setdefault("violations_by_signature", {})
+  k = core.canon(sig)
+  seen[k] = seen.get(k, 0) + 1
+  if seen[k] <= per_signature:
+    return ctx.report(sig, rep)
+  return "duplicate"
+
+
 class _Collect(object):
   """Stands in for the Context during core.replay: collects the mismatches
   so that TLC can arbitrate them before anything is reported."""
@@ -60,7 +72,7 @@ def replay(ctx, behaviours, params, trace_cfg, chunk=200):
   for sig, rep in col.mism:
     obs = rep["observed"]
     if not isinstance(obs, dict) or "EXC" in obs or set(obs) != set(rep["expected"]):
-      ctx.report(sig, rep)          # an exception / malformed observation
+      report(ctx, sig, rep)         # an exception / malformed observation
       continue
     pending.append((sig, rep))
   if pending:
@@ -78,7 +90,7 @@ def replay(ctx, behaviours, params, trace_cfg, chunk=200):
     for k, (sig, rep) in enumerate(pending):
       if k in bad:
         rep = dict(rep, tlc="observed run rejected by TraceRevent at event %d" % bad[k])
-        ctx.report(sig, rep)
+        report(ctx, sig, rep)
       else:
         st["tlc_accepted"] += 1
   st["violating"] = st["mismatch"] - st["tlc_accepted"]
@@ -107,6 +119,7 @@ def drive(arg):
   nsub = 0
   tr = []
   alltypes = list(types) + ["U"]
+  weak_owner = rnd.choice(owners + ["none"])   # only ever subscribed weakly: may die
   try:
     for _ in range(n):
       depth = len(running)
@@ -114,18 +127,22 @@ def drive(arg):
       a = None
       if depth and k < 0.30:
         a, args = "Return", dict(rv=rnd.choice(RVS))
-      elif k < 0.55 and alive:
+      elif k < 0.22:
+        t = rnd.choice(alltypes) if rnd.random() < 0.1 else rnd.choice(types)
+        a, args = "RaiseBegin", dict(t=t, form=rnd.choice(["inst", "cls"]),
+                                     noerr=rnd.random() < 0.4)
+      elif k < 0.50 and alive:
         t = rnd.choice(alltypes) if rnd.random() < 0.1 else rnd.choice(types)
         o = rnd.choice(alive)
-        weak = rnd.random() < 0.3
+        weak = o == weak_owner or rnd.random() < 0.2
         a, args = "Subscribe", dict(t=t, o=o, prio=rnd.choice([0, 1, 1, 2]),
                                     once=rnd.random() < 0.3, weak=weak,
                                     byName=rnd.random() < 0.3)
-      elif k < 0.58 and alive:
+      elif k < 0.53 and alive:
         o = rnd.choice(alive)
-        weak = rnd.random() < 0.4
+        weak = o == weak_owner or rnd.random() < 0.3
         a, args = "AutoBind", dict(o=o, prio=rnd.choice([1, 2]), weak=weak)
-      elif k < 0.70:
+      elif k < 0.65:
         mode = rnd.choice(MODES)
         args = dict(mode=mode, o="-", m="-", t="-", id=0)
         if mode in ("handler", "handlerT"):
@@ -134,17 +151,17 @@ def drive(arg):
           args["o"] = rnd.choice(alive)
           args["m"] = rnd.choice(["h", "h", rnd.choice(types)])
         else:
-          args["id"] = rnd.randint(1, nsub + 1)
+          args["id"] = rnd.randint(max(1, nsub - 5), nsub + 1)
         if mode in ("handlerT", "eidT", "pair"):
           args["t"] = rnd.choice(types)
         a = "Unsubscribe"
-      elif k < 0.75:
+      elif k < 0.70:
         cand = [o for o in alive if o not in strong_ever and o in had_sub
                 and o not in running]
         if not cand:
           continue
         a, args = "DropOwner", dict(o=rnd.choice(cand))
-      elif k < 0.90 and depth < 3:
+      elif k < 0.88 and depth < 3:
         t = rnd.choice(alltypes) if rnd.random() < 0.1 else rnd.choice(types)
         a, args = "RaiseBegin", dict(t=t, form=rnd.choice(["inst", "cls"]),
                                      noerr=rnd.random() < 0.4)
